@@ -120,6 +120,54 @@ pub fn cornered_position(rng: &mut Rng) -> Option<Pos> {
     }
 }
 
+/// A mate in one that only an under-promotion gives (the queen promotion on the same squares does
+/// not mate, typically because it stalemates or lets the king out): the four promotions of one
+/// pawn share their squares, anything that identifies a move by its squares alone goes wrong here.
+pub fn underpromotion_mate_position(rng: &mut Rng) -> Option<Pos> {
+    // the classical shape, varied: king on h7 hemmed in by its own men on h6 and h8, white king f6,
+    // pawn f7, one white piece guarding g8; f8=N is mate, f8=Q is not. Flipped and mirrored at random.
+    let mut p = Pos::empty();
+    let flip = rng.chance(1, 2);
+    let at = |f: i32, r: i32| sq_at(if flip { 7 - f } else { f }, r).unwrap();
+    p.sq[at(7, 6) as usize] = Some((Color::Black, Kind::King));
+    p.sq[at(5, 6) as usize] = Some((Color::White, Kind::Pawn));
+    p.sq[at(5, 5) as usize] = Some((Color::White, Kind::King));
+    p.sq[at(7, 5) as usize] = Some((Color::Black, *rng.pick(&[Kind::Pawn, Kind::Pawn, Kind::Knight, Kind::Bishop])));
+    p.sq[at(7, 7) as usize] = Some((Color::Black, *rng.pick(&[Kind::Knight, Kind::Bishop, Kind::Rook, Kind::Knight])));
+    // guard of g8
+    match rng.below(3) {
+        0 => {
+            let (f, r) = *rng.pick(&[(2, 3), (3, 4), (1, 2), (0, 1)]);
+            p.sq[at(f, r) as usize] = Some((Color::White, Kind::Bishop));
+        }
+        1 => {
+            let r = rng.below(5) as i32;
+            p.sq[at(6, r) as usize] = Some((Color::White, *rng.pick(&[Kind::Rook, Kind::Queen])));
+        }
+        _ => {
+            p.sq[at(4, 6) as usize] = Some((Color::White, Kind::Knight));
+        }
+    }
+    // bystanders far from the corner
+    for _ in 0..rng.below(4) {
+        let s = sq_at(rng.below(5) as i32, 1 + rng.below(4) as i32)?;
+        let s = if flip { sq_at(7 - file_of(s), rank_of(s))? } else { s };
+        if p.sq[s as usize].is_none() {
+            p.sq[s as usize] = Some((*rng.pick(&[Color::White, Color::Black]), Kind::Pawn));
+        }
+    }
+    p.stm = Color::White;
+    if !is_legal_position(&p) {
+        return None;
+    }
+    let legal = legal_moves(&p);
+    let mates: Vec<&Mv> = legal.iter().filter(|m| is_checkmate(&apply(&p, **m))).collect();
+    if mates.is_empty() || mates.iter().any(|m| m.promo.is_none() || m.promo == Some(Kind::Queen)) {
+        return None;
+    }
+    Some(if rng.chance(1, 2) { mirror(&p) } else { p })
+}
+
 const MATERIALS: &[(&[Kind], &[Kind])] = &[
     (&[Kind::Queen], &[]),
     (&[Kind::Rook], &[]),
@@ -368,7 +416,7 @@ pub fn check_root(root: &Root, classes: &[Class], depth: u8, h: &ZobristHasher, 
 
 pub fn run(tier: Tier, seed: u64) -> i32 {
     let mut run = Run::new("C11", tier, seed, "exploration");
-    run.rule = "evaluation = one real search (virtual clock, all iterations up to the limit complete) on a root near mate or stalemate, judged by the oracle's full-width mate solver: (1) mate-in-1 roots: the move standing after every completed iteration mates; (2) roots where some but not all moves allow a mate in one: the move standing after iterations 2 and 3 is not one of them; (3) every line `mate N`, 0<N<=3, requires a forced mate in <= N; `mate -N` on the last line of a completed depth requires mated-in-N; (4) a line reporting on a move that stalemates the opponent must not carry a mate score. Roots: sampled endgame families (KQK, KRK, KRRK, KBBK, KBNK, KQKR, pawn endings, ...) biased to edge/corner kings, sparse material with a cornered king hemmed in by its own men (minor piece against minor piece, pawn or rook: smothered and corner mates), positions 1-5 plies before a checkmate in oracle-driven games with full material, the library's mate/stalemate entries. Black box: the same two clauses for the move PLAYED by the real binary under slices of 1-20 ms - a violation needs an info line of depth >= 2 (>= 3) whose own time field lies below the plan, i.e. the first (second) iteration had finished before the allowance ended. Non-trivial = root classified mate-in-1 / avoidable mate / mated soon / stalemate trap; distinct by (root FEN, depth limit)".into();
+    run.rule = "evaluation = one real search (virtual clock, all iterations up to the limit complete) on a root near mate or stalemate, judged by the oracle's full-width mate solver: (1) mate-in-1 roots: the move standing after every completed iteration mates; (2) roots where some but not all moves allow a mate in one: the move standing after iterations 2 and 3 is not one of them; (3) every line `mate N`, 0<N<=3, requires a forced mate in <= N; `mate -N` on the last line of a completed depth requires mated-in-N; (4) a line reporting on a move that stalemates the opponent must not carry a mate score. Roots: sampled endgame families (KQK, KRK, KRRK, KBBK, KBNK, KQKR, pawn endings, ...) biased to edge/corner kings, sparse material with a cornered king hemmed in by its own men (minor piece against minor piece, pawn or rook: smothered and corner mates), mates in one that only an under-promotion gives, positions 1-5 plies before a checkmate in oracle-driven games with full material, the library's mate/stalemate entries. Black box: the same two clauses for the move PLAYED by the real binary under slices of 1-20 ms - a violation needs an info line of depth >= 2 (>= 3) whose own time field lies below the plan, i.e. the first (second) iteration had finished before the allowance ended. Non-trivial = root classified mate-in-1 / avoidable mate / mated soon / stalemate trap; distinct by (root FEN, depth limit)".into();
     run.assumptions = vec![
         "negative mate claims are judged only on the last line of a completed depth (intermediate lines describe the first move tried, not the position)".into(),
         "claims with |N| > 3 or beyond the solver's node budget are counted as unchecked, not decided".into(),
@@ -403,6 +451,21 @@ pub fn run(tier: Tier, seed: u64) -> i32 {
                 // keep all interesting ones and a few others
                 if cl != vec![Class::Other] || rng.chance(1, 30) {
                     roots.push((p, cl));
+                }
+            }
+        }
+        // mates that only an under-promotion gives
+        let mut found = 0;
+        for _ in 0..60 {
+            if found >= 2 {
+                break;
+            }
+            if let Some(p) = underpromotion_mate_position(&mut rng) {
+                let cl = classify(&p);
+                if cl.contains(&Class::MateIn1) {
+                    acc.count("underpromotion_only_mate_roots", 1);
+                    roots.push((p, cl));
+                    found += 1;
                 }
             }
         }
@@ -445,6 +508,14 @@ pub fn run(tier: Tier, seed: u64) -> i32 {
             let p = Pos::parse_fen(fen).unwrap();
             // the oracle decides, not the list
             if Solver::new(200_000).mate_in(&p, 1) == Some(true) {
+                bb_roots.push((p, true, vec![]));
+            }
+        }
+        for _ in 0..2_000 {
+            if bb_roots.len() >= 16 {
+                break;
+            }
+            if let Some(p) = underpromotion_mate_position(&mut rng) {
                 bb_roots.push((p, true, vec![]));
             }
         }
